@@ -140,7 +140,93 @@ def check_shape(t, shape, assignments=None, full=True):
                         expf = ("ok", None) if k == 0 else (("ok", pre[0]) if k == 1 else ("CountError", (1, k)))
                         judge(t, "find", expf, outcome(search.find, nodes[start], filt, stop, ml), idm, ctx)
                         judge(t, "cachedsearch.find", expf, outcome(cachedsearch.find, nodes[start], filter_=filt, stop=stop, maxlevel=ml), idm, ctx)
+    if full:
+        check_attribute_kinds(t, shape, m)
+        check_call_mutate_call(t, shape, m)
     t.sample({"shape": shape, "tags": ["x", None, ABSENT][: m.n], "query": "findall_by_attr(start, None, name='tag', mincount=0, maxcount=0)"}, cap=1)
+
+
+def check_attribute_kinds(t, shape, m):
+    """'attribute `name` exists' also means: a property, a class-level default, a slot, an attribute forwarded by a
+    SymlinkNode - anything getattr() finds."""
+    import anytree
+    from anytree import cachedsearch, search
+
+    class Kinded(anytree.NodeMixin):
+        kind = "k"  # class-level default
+
+        def __init__(self, name):
+            self.name = name
+
+    for label, factory in (("user class with class-level default", lambda i: Kinded("n%d" % i)),
+                           ("LightNodeMixin with __slots__", lambda i: tree.plain_classes()["light"]("n%d" % i))):
+        nodes = [factory(i) for i in range(m.n)]
+        for i in range(m.n):
+            if m.par[i] is not None:
+                nodes[i].parent = nodes[m.par[i]]
+        idm = tree.IdMap(nodes)
+        for start in range(m.n):
+            pre = m.pre(start)
+            ctx = {"shape": shape, "start": start, "node_class": label}
+            queries = [("is_leaf", True, [v for v in pre if not m.ch[v]]), ("depth", 1, [v for v in pre if m.depth(v) == 1]),
+                       ("name", "n%d" % pre[-1], [pre[-1]]), ("nope", None, [])]
+            if label.startswith("user"):
+                queries.append(("kind", "k", pre))
+            for name, value, exp in queries:
+                for mod, modname in ((search, "search"), (cachedsearch, "cachedsearch")):
+                    got = outcome(mod.findall_by_attr, nodes[start], value, name=name)
+                    judge(t, "%s.findall_by_attr(name=%r)" % (modname, name), ("ok", exp), got, idm, ctx)
+                    t.c["attribute_kind_queries"] += 1
+    # attributes forwarded by a SymlinkNode count as attributes of the link
+    target = anytree.Node("tgt", tag="x")
+    nodes = [anytree.Node("n%d" % i) for i in range(m.n)]
+    for i in range(m.n):
+        if m.par[i] is not None:
+            nodes[i].parent = nodes[m.par[i]]
+    link = anytree.SymlinkNode(target, parent=nodes[m.n - 1])
+    idm = tree.IdMap(nodes + [link])
+    got = outcome(search.findall_by_attr, nodes[0], "x", name="tag")
+    judge(t, "search.findall_by_attr(name='tag') with a SymlinkNode", ("ok", [m.n]), got, idm, {"shape": shape, "node_class": "Node + SymlinkNode"})
+    t.c["attribute_kind_queries"] += 1
+
+
+def check_call_mutate_call(t, shape, m):
+    """The same query before and after a mutation (attribute change, detach, attach): the cachedsearch twins must keep
+    agreeing with search, i.e. with the filtered pre-order of the CURRENT tree."""
+    from anytree import cachedsearch, search
+
+    for mut in ("retag", "detach", "attach"):
+        nodes = tree.build(m, tree.default_factory("user"), "topdown")
+        spare = tree.default_factory("user")(99, "spare")
+        spare.tag = "x"
+        for i, nd in enumerate(nodes):
+            nd.tag = "x" if i % 2 == 0 else "y"
+        idm = tree.IdMap(nodes + [spare])
+        hide = lambda n: getattr(n, "tag", None) == "x"  # noqa
+        calls = [
+            ("findall_by_attr", lambda mod: outcome(mod.findall_by_attr, nodes[0], "x", name="tag")),
+            ("find_by_attr", lambda mod: outcome(mod.find_by_attr, nodes[0], "y", name="tag")),
+            ("findall", lambda mod: outcome(mod.findall, nodes[0], filter_=hide)),
+            ("find", lambda mod: outcome(mod.find, nodes[0], filter_=hide, maxlevel=1)),
+        ]
+        for _, c in calls:
+            c(cachedsearch)
+        if mut == "retag":
+            nodes[m.n - 1].tag = "x" if nodes[m.n - 1].tag == "y" else "y"
+        elif mut == "detach":
+            if m.n < 2:
+                continue
+            nodes[m.n - 1].parent = None
+        else:
+            spare.parent = nodes[0]
+        for cname, c in calls:
+            a, b = c(search), c(cachedsearch)
+            t.c["evaluations"] += 1
+            t.c["calls_after_mutation"] += 1
+            if _norm(a, idm) != _norm(b, idm):
+                t.violation("C14: cachedsearch.%s disagrees with search.%s when the same query is repeated after a mutation (%s)" % (
+                    cname, cname, mut), {"engine": "E2", "module": MOD, "shape": shape, "history": mut, "search": _norm(a, idm),
+                                         "cachedsearch": _norm(b, idm)})
 
 
 def _norm(got, idm):
@@ -191,10 +277,12 @@ def run(tier):
         "rule": "ordered trees up to %d nodes x every assignment of a 'tag' attribute from {absent,'x',None} (at %d nodes: "
                 "<=2 nodes differing from 'x') x start x maxlevel x searched value {'x',None,'q'} x (mincount,maxcount) in "
                 "{None,0,k-1,k,k+1}^2 for findall_by_attr/find_by_attr, and stop/filter subsets (<=2 nodes) for findall/find; "
-                "search and cachedsearch, keyword and positional; non-trivial = at least one match or a CountError expected"
+                "search and cachedsearch, keyword and positional; attributes that are properties, class-level defaults, slots or forwarded by "
+                "a SymlinkNode; the same query repeated after a mutation (retag / detach / attach); non-trivial = at least one match or a CountError expected"
                 % (nfull, npart),
         "bounds": {"full_upto": nfull, "partial_at": npart, "shapes": len(full) + len(part)},
     }
     return {"tally": t, "coverage": cov,
-            "guards": ("nontrivial", "count_errors_expected", "maxcount_zero_with_matches", "missing_attribute_skipped"),
+            "guards": ("nontrivial", "count_errors_expected", "maxcount_zero_with_matches", "missing_attribute_skipped",
+                       "attribute_kind_queries", "calls_after_mutation"),
             "assumptions": ["fastcache is not installed in this image: cachedsearch is the documented pass-through"]}
